@@ -8,7 +8,7 @@ from __future__ import annotations
 
 import ast
 
-from ..flow import FlowAnalysis, fact_exprs, may_event
+from ..flow import FlowAnalysis, fact_exprs, has_event, may_event
 from ..model import AnalysisError, FuncInfo, call_name, dotted_name, last_attr, names_in, unparse, walk_no_nested
 
 RUN = "codemodder.codemodder.run"
@@ -224,6 +224,34 @@ def rule_status_map(ctx, rep):
     )
     rep.check("R-STATUS-MAP", pa.qname, pa.loc(inst[0]) if inst else pa.loc(), ok, "parser-class",
               "parse_args() builds an argparse parser whose error() is not the repo's exit-3 override")
+    # ...and that override really leaves with 3 on every path; the --list / --describe actions really leave through parser.exit()
+    for n in inst:
+        cq = r.callee_qname(n)
+        em = ctx.prog.lookup_method(cq, "error") if cq in ctx.prog.classes else None
+        if em is None:
+            continue
+
+        def ev3(call):
+            if call_name(call) in ("sys.exit", "exit", "os._exit") and call.args and isinstance(call.args[0], ast.Constant) and call.args[0].value == 3:
+                return "EV:exit3"
+            return None
+
+        fa3 = FlowAnalysis(em.node, ev3)
+        bad = [e for e in fa3.exits if e.kind != "raise" and not has_event(e.state, "EV:exit3")]
+        rep.check("R-STATUS-MAP", em.qname, em.loc(), not bad, "error-always-exits-3",
+                  "ArgumentParser.error can return without sys.exit(3): argparse then falls through to its own exit status 2, or continues with bad arguments")
+    for q in sorted(cli_reach):
+        fn = ctx.prog.functions[q]
+        if fn.name != "__call__" or fn.cls is None or not any("Action" in b for b in ctx.prog.mro(fn.cls.qname) + ctx.prog.external_bases(fn.cls.qname)):
+            continue
+        pexits = [c for c in walk_no_nested(fn.node) if isinstance(c, ast.Call) and last_attr(c.func) == "exit" and isinstance(c.func, ast.Attribute)]
+        if not pexits and not any(isinstance(c, ast.Call) and (last_attr(c.func) in ("print", "print_help") or call_name(c) == "print") for c in walk_no_nested(fn.node)):
+            continue  # a value-storing action (CsvListAction, ...): it is supposed to return
+        ids = {id(c) for c in pexits}
+        fae = FlowAnalysis(fn.node, lambda c, _i=ids: "EV:pexit" if id(c) in _i else None)
+        bad = [e for e in fae.exits if e.kind != "raise" and not has_event(e.state, "EV:pexit")]
+        rep.check("R-STATUS-MAP", fn.qname, fn.loc(), bool(pexits) and not bad, "informational-action-exits",
+                  "an informational option (--list / --describe / --version like) prints and then returns instead of leaving through parser.exit(): the run continues and its status is that of the run")
 
 
 def rule_zero_after_report(ctx, rep):
